@@ -302,7 +302,7 @@ def run_profile(sh, prop, profile, n_models, monitors, nontrivial=None, prefix='
             ov['budget'] = [None, None, 1500, 700]
             ov['max_events'] = 200000
             sh.count(prefix + 'long_history_models')
-        spec = modelgen.generate(seed, profile, tie=tie, overrides=ov)
+        spec = modelgen.generate(seed, profile, tie=tie, overrides=ov, catching=True)
         if ov and ov.get('max_events') == 200000:
             spec['long'] = True
         run_spec(sh, prop, spec, monitors, nontrivial, prefix)
